@@ -28,7 +28,8 @@ Theorem C15_multiset : forall sp md w' n Vs,
      (forall i, sv_rank sp md sv i = Ok (vs_rank Vs i)) /\
      (forall r, sv_select sp md sv r = Ok (vs_select Vs r)) /\
      (forall v, it_first md sv (sv_predecessor sp md sv v) = Ok (hd_error (vs_pred Vs v))) /\
-     (forall v, it_first md sv (sv_successor sp md sv v) = Ok (hd_error (vs_succ Vs v)))) /\
+     (forall v, it_first md sv (sv_successor sp md sv v) = Ok (hd_error (vs_succ Vs v))) /\
+     sv_is_multiset md sv = Ok (has_dup Vs)) /\
     (* the bit iterator lists the membership bits of the positions (duplicates skipped from both ends), the set-bit
        iterators list the values with their indices; in both directions and any interleaving *)
     ((forall pat, (let* s := sv_iter_new md sv in sbi_drive md sv pat s) = Ok (deque_run (vs_bits Vs n) pat)) /\
@@ -53,7 +54,8 @@ Theorem C15_try_from_iter_accepts : forall sp md w' Vs,
      (forall i, sv_rank sp md sv i = Ok (vs_rank Vs i)) /\
      (forall r, sv_select sp md sv r = Ok (vs_select Vs r)) /\
      (forall v, it_first md sv (sv_predecessor sp md sv v) = Ok (hd_error (vs_pred Vs v))) /\
-     (forall v, it_first md sv (sv_successor sp md sv v) = Ok (hd_error (vs_succ Vs v)))) /\
+     (forall v, it_first md sv (sv_successor sp md sv v) = Ok (hd_error (vs_succ Vs v))) /\
+     sv_is_multiset md sv = Ok (has_dup Vs)) /\
     ((forall pat, (let* s := sv_iter_new md sv in sbi_drive md sv pat s) = Ok (deque_run (vs_bits Vs n) pat)) /\
      (forall pat, it_drive md sv pat (sv_one_iter sv) = Ok (deque_run (vs_ranked Vs) pat)) /\
      (forall r pat, (let* it := sv_select_iter sp md sv r in it_drive md sv pat it) = Ok (deque_run (skipN (vs_ranked Vs) r) pat)) /\
